@@ -44,9 +44,15 @@ def splitHint (ws : List String) : List String × List String :=
   let i := ws.idxOf "##"
   (ws.take i, ws.drop (i + 1))
 
+def pad6 (n : Nat) : String :=
+  let d := toString n
+  String.mk (List.replicate (6 - d.length) '0') ++ d
+
+def walName (w : Wal) : String := "i" ++ toString w.dir ++ "/" ++ pad6 w.num ++ ".wal"
+
 def filePath : File → String
   | .sst p => p
-  | .wal p => p
+  | .wal w => walName w
 
 def aliveAt (st : St) (i : Nat) : Bool :=
   match st.s.insts[i]? with
@@ -148,11 +154,14 @@ def step (st : St) (ws : List String) : St × String :=
     let gen := natOr (field rest "gen")
     let nbrs := (parseList (field rest "nbrs")).map parseRange
     let from_ := field rest "from"
+    -- the storage directory: the instance's own unless `dir=<k>` names an earlier one (same operator id)
+    let dirS := field rest "dir"
+    let dir := if dirS == "" then st.s.insts.length else natOr dirS
     let act : Act :=
-      if from_ == "none" || from_ == "" then .openFresh range gen nbrs
+      if from_ == "none" || from_ == "" then .openFresh range gen nbrs dir
       else match from_.splitOn ":" with
-        | [w, id] => .openFrom range gen nbrs ((w.splitOn "+").map natOr) (natOr id)
-        | _ => .openFresh range gen nbrs
+        | [w, id] => .openFrom range gen nbrs ((w.splitOn "+").map natOr) (natOr id) dir
+        | _ => .openFresh range gen nbrs dir
     match Files.step st.s act with
     | none => (st, "no-such-checkpoint")
     | some s' =>
@@ -184,7 +193,7 @@ def step (st : St) (ws : List String) : St × String :=
         | none => (st, "disabled " ++ r.2)
         | some s2 =>
           ({ st with s := s2, modes := st.modes ++ ["truthful"] },
-            "ok " ++ toString idx ++ " tables=" ++ joinC (sortStr (x.current.map showTbl)) ++ " wals=" ++ joinC (sortStr wals)
+            "ok " ++ toString idx ++ " tables=" ++ joinC (sortStr (x.current.map showTbl)) ++ " wals=" ++ joinC (sortStr (wals.map walName))
               ++ " ev=" ++ (if evs == "" then "-" else evs))
   | ["write", i, _, _, _] =>
     let i := natOr i
@@ -209,14 +218,16 @@ def step (st : St) (ws : List String) : St × String :=
   | ["ckpt", i, id] =>
     let i := natOr i
     if !aliveAt st i then (st, "not-alive") else
-    let wal := field hint "wal"
-    match Files.step st.s (.ckpt i (natOr id) wal) with
-    | none => (st, "disabled")
-    | some s' =>
-      let cur := match st.s.insts[i]? with
-        | some x => uris x.current
-        | none => []
-      ({ st with s := s' }, "ok wal=" ++ wal ++ " tables=" ++ joinC (sortStr cur))
+    match st.s.insts[i]? with
+    | none => (st, "not-alive")
+    | some x =>
+      -- the name of the sealed WAL is the model's own (directory, next number); a name that was used before
+      -- gets the next version: the older file is overwritten
+      let ver := (st.s.usedW.filter (fun v => v.dir == x.dir && v.num == x.walNext)).length
+      let wal : Wal := ⟨x.dir, x.walNext, ver⟩
+      match Files.step st.s (.ckpt i (natOr id) wal) with
+      | none => (st, "disabled")
+      | some s' => ({ st with s := s' }, "ok wal=" ++ walName wal ++ " tables=" ++ joinC (sortStr (uris x.current)))
   | ["jobdrop", k] =>
     match Files.step st.s (.jobDrop (natOr k)) with
     | none => (st, "disabled")
@@ -233,9 +244,10 @@ def step (st : St) (ws : List String) : St × String :=
       match Files.step st.s (.retain i ids) with
       | none => (st, "disabled")
       | some s' =>
-        let gone := (st.s.files.filter (fun f => !s'.files.contains f)).map filePath
+        let goneF := st.s.files.filter (fun f => !s'.files.contains f)
         let need := needed st.s
-        let bad := gone.filter (fun p => need.contains (.wal p))
+        let gone := goneF.map filePath
+        let bad := (goneF.filter (fun f => need.contains f)).map filePath
         let model := "ok deleted=" ++ joinC (sortStr gone)
         let spec := "ok deleted=" ++ joinC (sortStr (gone.filter (fun p => !bad.contains p)))
         ({ st with s := s' }, withSpec model spec "")
@@ -313,7 +325,21 @@ def step (st : St) (ws : List String) : St × String :=
   | ["files"] => (st, "ok " ++ joinC (sortStr (st.s.files.map filePath)))
   | ["missing"] =>
     let m := (missing st.s).map filePath
-    if m.isEmpty then (st, "ok") else (st, withSpec ("missing " ++ joinWith "," (sortStr m.eraseDups)) "ok" st.kf)
+    -- a retained checkpoint whose entry is no longer in the document of its writer's directory: a later instance
+    -- of the same directory saved its own list, which holds only the checkpoint it restored from (D50)
+    let dirOf := fun (k : Nat) => match st.s.insts[k]? with
+      | some y => y.dir
+      | none => k
+    let lostDocs := st.s.retained.filterMap fun h =>
+      match st.s.docs.find? (fun k => dirOf k == dirOf h.writer) with
+      | some j => match st.s.insts[j]? with
+        | some y => if y.ckpts.any (fun c => c.id == h.id) then none
+                    else some ("doc:i" ++ toString h.writer ++ ":" ++ toString h.id)
+        | none => none
+      | none => none
+    let all := (m ++ lostDocs).eraseDups
+    if all.isEmpty then (st, "ok")
+    else (st, withSpec ("missing " ++ joinWith "," (sortStr all)) "ok" (if m.isEmpty then "D50" else st.kf))
   | _ => (st, "bad-op")
 
 def handle (lines : Array String) (i : Nat) (out : Array String) : Nat × Array String :=
